@@ -836,6 +836,10 @@ pub struct Built {
     pub strings: Vec<String>,
     /// canonical (lower-case) part name of every sheet, e.g. `xl/worksheets/sheet1.xml`
     pub sheet_paths: Vec<String>,
+    /// events of `xl/workbook.xml` as written (C16)
+    pub workbook_events: Vec<Ev>,
+    /// `(Id, Target)` of the sheet relationships in `xl/_rels/workbook.xml.rels`, in sheet order (C16)
+    pub sheet_rels: Vec<(String, String)>,
 }
 
 impl XlsxBook {
@@ -885,6 +889,7 @@ impl XlsxBook {
         }
         wb.push(start(&l.q("sheets"), &[]));
         let mut rels = format!("<?xml version=\"1.0\" encoding=\"UTF-8\" standalone=\"yes\"?>\n<Relationships xmlns=\"{}\">", NS_PKG_REL);
+        let mut sheet_rels: Vec<(String, String)> = vec![];
         for (i, sh) in self.sheets.iter().enumerate() {
             let mut attrs: Vec<(String, String)> = vec![("name".into(), sh.name.clone()), ("sheetId".into(), (i + 1).to_string())];
             match sh.state {
@@ -912,6 +917,7 @@ impl XlsxBook {
                 _ => "worksheet",
             };
             rels.push_str(&format!("<Relationship Id=\"rId{}\" Type=\"{}/{}\" Target=\"{}\"/>", i + 1, NS_REL, typ, esc_attr(&target)));
+            sheet_rels.push((format!("rId{}", i + 1), target));
         }
         wb.push(end(&l.q("sheets")));
         if !self.defined_names.is_empty() {
@@ -959,7 +965,7 @@ impl XlsxBook {
             .map(|(n, b)| (if n.starts_with("xl/") { part_name(&n, l.part_case) } else { n }, b))
             .collect();
         let bytes = zip_parts(&parts, l.compression, &mut rng);
-        Built { bytes, parts, sheet_events, sst_events, strings: sst.items, sheet_paths }
+        Built { bytes, parts, sheet_events, sst_events, strings: sst.items, sheet_paths, workbook_events: wb, sheet_rels }
     }
 }
 
